@@ -87,6 +87,26 @@ Theorem C02_fast_append_partial :
 Proof. exact fast_append_ok. Qed.
 Print Assumptions C02_fast_append_partial.
 
+(* THE OTHER FAST PATH: a cursor motion without redraw (no hint, no highlighter). The bytes written are the standard encoding of
+   at most two relative terminal motions; on a terminal whose cursor is on the old cell they put it on the new cell, change
+   nothing on the screen, and (when the cell differs) leave no wrap pending *)
+Theorem C02_move_bytes_encode :
+  forall (old new : pos2), move_cursor_bytes old new = encode_all (move_ops old new).
+Proof. exact move_bytes_encode. Qed.
+Print Assumptions C02_move_bytes_encode.
+
+Theorem C02_move_cursor_partial :
+  forall (W : nat), 1 <= W -> forall (old new : pos2) (v : vt),
+  cursor_cell v = (p_row old, p_col old) ->
+  p_col new < W ->
+  let v' := run W (move_ops old new) v in
+  cursor_cell v' = (p_row new, p_col new)
+  /\ (forall r c, v_cells v' r c = v_cells v r c)
+  /\ (pos2_eqb old new = false -> v_pending v' = false)
+  /\ (pos2_eqb old new = true -> v' = v).
+Proof. exact move_cursor_ok. Qed.
+Print Assumptions C02_move_cursor_partial.
+
 (* non-vacuity: 7 letters in 5 columns from the anchor end on row 1, column 2 *)
 Example C02_example :
   let s := [97; 98; 99; 100; 101; 102; 103]%N in
